@@ -433,10 +433,11 @@ class Union:
         return any(isinstance(obj, t) for t in self.types)
 
     def __eq__(self, other):
-        return self.__args__ == other.__args__
+        # The order in which the members are written does not matter
+        return frozenset(self.__args__) == frozenset(other.__args__)
 
     def __hash__(self):
-        return hash(self.__args__)
+        return hash(frozenset(self.__args__))
 
     def __str__(self):
         return " | ".join(map(clsstring, self.__args__))
@@ -486,10 +487,11 @@ class Intersection:
         return all(isinstance(obj, t) for t in self.types)
 
     def __eq__(self, other):
-        return self.__args__ == other.__args__
+        # The order in which the members are written does not matter
+        return frozenset(self.__args__) == frozenset(other.__args__)
 
     def __hash__(self):
-        return hash(self.__args__)
+        return hash(frozenset(self.__args__))
 
     def __str__(self):
         return " & ".join(map(clsstring, self.__args__))
